@@ -276,19 +276,52 @@ package profile
 //@     && (forall i int :: 0 <= i && i < len(p.Sample) ==> p.Sample[i] != nil
 //@          && forall j int :: 0 <= j && j < len(p.Sample[i].Location) ==> p.Sample[i].Location[j] != nil)
 
+// simplifyFunc is assumed to be a deterministic function of its argument (it reads only
+// its argument and package-level constants); drops(name): the frame-dropping verdict.
+//@ spec func simplify(f string) string
+//@ extern func simplifyFunc pure
+//@   trusted simplifyFunc is a deterministic function of its argument without side effects
+//@   ensures result == simplify(f)
+//@ spec func drops(dropRx *regexp.Regexp, keepRx *regexp.Regexp, name string) bool =
+//@     match(dropRx, simplify(name)) && !(keepRx != nil && match(keepRx, simplify(name)))
+//@ spec func linedrop(loc *Location, dropRx *regexp.Regexp, keepRx *regexp.Regexp, i int) bool =
+//@     loc.Line[i].Function != nil && loc.Line[i].Function.Name != "" && drops(dropRx, keepRx, loc.Line[i].Function.Name)
+
 //@ func Profile.Prune
 //@   requires wfprofile(p) && dropRx != nil
+//@   requires forall a int, b int :: 0 <= a && a < b && b < len(p.Location) ==> p.Location[a] != p.Location[b]
 //@   ensures count: len(p.Sample) == old(len(p.Sample))
 //@   ensures nonempty: forall k int :: 0 <= k && k < len(p.Sample) && old(len(p.Sample[k].Location)) > 0 ==> len(p.Sample[k].Location) > 0
 //@   ensures shorter: forall k int :: 0 <= k && k < len(p.Sample) ==> len(p.Sample[k].Location) <= old(len(p.Sample[k].Location))
+//@   ensures lines_kept: forall k int :: 0 <= k && k < len(p.Location)
+//@       && (forall j int :: 0 <= j && j < old(len(p.Location[k].Line)) ==> !old(linedrop(p.Location[k], dropRx, keepRx, j)))
+//@       ==> same_elems(p.Location[k].Line, old(p.Location[k].Line))
+//@   ensures lines_cut: forall k int :: 0 <= k && k < len(p.Location) ==> len(p.Location[k].Line) <= old(len(p.Location[k].Line))
+//@       && same_elems(p.Location[k].Line, old(p.Location[k].Line)[old(len(p.Location[k].Line)) - len(p.Location[k].Line):])
+//@       && (len(p.Location[k].Line) < old(len(p.Location[k].Line)) ==>
+//@            (forall i int :: i == old(len(p.Location[k].Line)) - len(p.Location[k].Line) - 1 ==> old(linedrop(p.Location[k], dropRx, keepRx, i)))
+//@            && forall j int :: old(len(p.Location[k].Line)) - len(p.Location[k].Line) <= j && j < old(len(p.Location[k].Line)) ==> !old(linedrop(p.Location[k], dropRx, keepRx, j)))
 //@   loop 1
 //@     invariant 0 <= $i && $i <= len(p.Location)
 //@     invariant forall k int :: 0 <= k && k < len(p.Location) ==> p.Location[k] != nil
+//@     invariant forall s string :: has(pruneCache, s) ==> (pruneCache[s] <==> drops(dropRx, keepRx, s))
+//@     invariant forall k int :: $i <= k && k < len(p.Location) ==> same_elems(p.Location[k].Line, old(p.Location[k].Line))
+//@     invariant forall k int :: 0 <= k && k < $i
+//@       && (forall j int :: 0 <= j && j < old(len(p.Location[k].Line)) ==> !old(linedrop(p.Location[k], dropRx, keepRx, j)))
+//@       ==> same_elems(p.Location[k].Line, old(p.Location[k].Line))
+//@     invariant forall k int :: 0 <= k && k < $i ==> len(p.Location[k].Line) <= old(len(p.Location[k].Line))
+//@       && same_elems(p.Location[k].Line, old(p.Location[k].Line)[old(len(p.Location[k].Line)) - len(p.Location[k].Line):])
+//@       && (len(p.Location[k].Line) < old(len(p.Location[k].Line)) ==>
+//@            (forall i int :: i == old(len(p.Location[k].Line)) - len(p.Location[k].Line) - 1 ==> old(linedrop(p.Location[k], dropRx, keepRx, i)))
+//@            && forall j int :: old(len(p.Location[k].Line)) - len(p.Location[k].Line) <= j && j < old(len(p.Location[k].Line)) ==> !old(linedrop(p.Location[k], dropRx, keepRx, j)))
 //@   loop 2
 //@     invariant -1 <= i && i < len(loc.Line)
+//@     invariant forall s string :: has(pruneCache, s) ==> (pruneCache[s] <==> drops(dropRx, keepRx, s))
+//@     invariant forall j int :: i < j && j < len(loc.Line) ==> !linedrop(loc, dropRx, keepRx, j)
 //@     decreases i + 1
 //@   loop 3
 //@     invariant 0 <= $i && $i <= len(p.Sample)
+//@     invariant same_elems(p.Location, old(p.Location))
 //@     invariant forall k int :: 0 <= k && k < len(p.Sample) ==> p.Sample[k] != nil
 //@          && forall j int :: 0 <= j && j < len(p.Sample[k].Location) ==> p.Sample[k].Location[j] != nil
 //@     invariant forall k int :: 0 <= k && k < len(p.Sample) && old(len(p.Sample[k].Location)) > 0 ==> len(p.Sample[k].Location) > 0
